@@ -62,6 +62,39 @@ def solve(axioms, pc, goal, timeout_ms=10000, want_model=True):
     return "undecided", "z3+cvc5", dt + dt2, None
 
 
+class Prover:
+    """One solver per verified function: axioms asserted once, each obligation in a push/pop
+    scope (the Python-side cost of re-asserting thousands of axioms per query dominated)."""
+
+    def __init__(self, axioms, timeout_ms):
+        self.s = z3.Solver()
+        self.s.set("timeout", timeout_ms)
+        self.s.add(*axioms)
+        self.timeout_ms = timeout_ms
+
+    def prove(self, pc, goal):
+        s = self.s
+        s.push()
+        try:
+            s.add(*pc)
+            s.add(z3.Not(goal))
+            t0 = time.time()
+            r = s.check()
+            dt = time.time() - t0
+            if r == z3.unsat:
+                return "proved", "z3", dt, None
+            if r == z3.sat:
+                return "refuted", "z3", dt, s.model()
+            st2, dt2 = cvc5_check(s, self.timeout_ms)
+            if st2 == "unsat":
+                return "proved", "cvc5", dt + dt2, None
+            if st2 == "sat":
+                return "refuted", "cvc5", dt + dt2, None
+            return "undecided", "z3+cvc5", dt + dt2, None
+        finally:
+            s.pop()
+
+
 def cvc5_check(solver, timeout_ms):
     exe = "/usr/bin/cvc5"
     if not os.path.exists(exe):
@@ -95,11 +128,12 @@ class Verdict:
         self.replay = replay      # replay script source (for refuted)
         self.note = note
         self.path = path
+        self.witness_class = None
 
     def to_dict(self):
         return {"name": self.name, "status": self.status, "backend": self.backend,
                 "seconds": round(self.seconds, 4), "model": self.model_text, "replay": self.replay,
-                "note": self.note}
+                "note": self.note, "witness_class": self.witness_class}
 
 
 def verify_function(contract, sources=None, timeout_ms=10000):
@@ -171,11 +205,11 @@ def verify_function(contract, sources=None, timeout_ms=10000):
     if len(results) == 0:
         rep["verdicts"].append(Verdict(contract.name + "/reachability", "refuted",
                                        note="no feasible path through the function (vacuous)").to_dict())
-    axioms = I.U.all_axioms()
+    prover = Prover(I.U.all_axioms(), timeout_ms)
     for (name, q, goal, oc) in obs:
         if isinstance(goal, bool):
             goal = z3.BoolVal(goal)
-        status, backend, dt, model = solve(axioms, q.pc, goal, timeout_ms)
+        status, backend, dt, model = prover.prove(q.pc, goal)
         if os.environ.get("PYVC_DEBUG"):
             print("  [%s] %s %.2fs %s" % (status, name, dt, backend), flush=True)
         v = Verdict(name, status, backend, dt)
@@ -183,9 +217,14 @@ def verify_function(contract, sources=None, timeout_ms=10000):
             v.model_text = model_summary(model, info) if model is not None else None
             if contract.concretise is not None and model is not None:
                 try:
-                    v.replay = contract.concretise(model, info, name, I, q)
+                    cz = contract.concretise(model, info, name, I, q)
+                    if isinstance(cz, dict):
+                        v.replay = cz.get("script")
+                        v.witness_class = cz.get("witness")
+                    else:
+                        v.replay = cz
                 except Exception:
-                    v.note = "concretiser failed: " + traceback.format_exc(limit=2)
+                    v.note = "concretiser failed: " + traceback.format_exc(limit=3)
         rep["verdicts"].append(v.to_dict())
     return rep
 
